@@ -8,7 +8,7 @@
      Read(u)    fetch unit u - only a unit not yet asked in this call (Type 1/2/3: the memory readers
                 cache; Type 4: READ BINARY offsets strictly increase between two SELECTs, so an empty
                 answer can not be re-requested for ever)
-     Retry      the same command again, only after an unanswered one, at most twice in a row
+     Retry      the same command again, only after an unanswered one
      Sense      a new activation of the tag
      Finish(r)  r = None, or [off, len, cap] inside the declared data area with len <= cap
    all under a command budget.  There is NO action for an exception: a recorded call that ends with one
@@ -58,7 +58,7 @@ ReadAt(o, ok, bud) == /\ call # "idle" /\ Count(ok, bud) /\ nretry' = 0
                  /\ minoff' = o + 1
                  /\ UNCHANGED <<call, asked, fin>>
 
-Retry(ok, bud) == /\ call # "idle" /\ unanswered /\ nretry < 2 /\ Count(ok, bud)
+Retry(ok, bud) == /\ call # "idle" /\ unanswered /\ Count(ok, bud)
              /\ nretry' = nretry + 1
              /\ UNCHANGED <<call, asked, minoff, fin>>
 
